@@ -81,6 +81,8 @@ for _k, m in enumerate(order):
             exec("from chartparse import " + m, {})
         elif FORM == "dunder":
             __import__("chartparse." + m, fromlist=["*"])
+        elif FORM == "star":
+            exec("from chartparse." + m + " import *", {})
         else:
             importlib.import_module("chartparse." + m)
         steps.append("ok")
@@ -233,6 +235,8 @@ def slice(ctx: fw.Ctx) -> fw.Outcome:
     flagged = [([m], fl, FORMS[(i + j) % 4], None) for j, fl in enumerate((("-O",), ("-OO",), ("-W", "error"), ("-X", "warn_default_encoding", "-W", "error"), ("-X", "dev", "-W", "error"), ("-B", "-bb"))) for i, m in enumerate(mods)]
     # every module first, every way of writing the import (4 x 12, complete)
     flagged += [([m], (), f, None) for f in FORMS[1:] for m in mods]
+    # … and as a star import: first, and after each other module in turn (the names a module exports exist whenever it is imported)
+    flagged += [([m], (), "star", None) for m in mods] + [([mods[(i + 1 + ctx.seed) % len(mods)], m], (), "star", None) for i, m in enumerate(mods)]
     # every ordered pair with the first import made by a helper thread that has ended (12 x 11, complete)
     flagged += [([a, b], (), "thread", None) for a in mods for b in mods if a != b]
     # every module first in a process its client has already configured (decimal context, standard streams, logging, warnings, cwd)
